@@ -1,11 +1,18 @@
 (* C15 — merging and gap filling preserve the per-base signal.
-   Only statements, closed by [exact], with Print Assumptions beneath each. *)
-From BT Require Import Base.Util Model.Merge Proofs.MergeSig Proofs.MergeInto.
+   Only statements, closed by [exact], with Print Assumptions beneath each.
+   Vocabulary (Model/Merge.v): a value is [mkV start end val] with [val] an exact number (eighths);
+   [sig l x] = the value at base x of the first value of l containing x; [sigz l x] = the sum of all values of l
+   containing x; [cov l x] = some value of l contains x; [sorted_from lo l] = values non-empty, in order, pairwise
+   disjoint, none before lo; [ssum vss x] = the sum over the streams vss of their value at base x (0 where absent);
+   [nz_opt z] = None when z = 0, Some z otherwise. *)
+From BT Require Import Base.Util Model.Merge Model.Fill Model.MergeTool
+  Proofs.MergeSig Proofs.MergeInto Proofs.MergeWin Proofs.MergeMany Proofs.FillOk Proofs.MergeToolOk.
 Local Open Scope N_scope.
 
-(* merge_into: for two non-empty overlapping values the call returns (no panic) pieces that are sorted,
-   pairwise disjoint, start at the hull's start, and whose value at every base x is the sum of the inputs
-   that contain x -- and nothing outside the hull ([cov] false => no value). *)
+(* ------------------------------------------------------------------ merge_into *)
+(* For two non-empty overlapping values the call returns (no panic) pieces that are sorted, pairwise disjoint,
+   start at the hull's start, and whose value at every base x is the sum of the inputs that contain x -- and
+   nothing outside the hull. *)
 Theorem C15_merge_into : forall one two,
   v_start one < v_end one -> v_start two < v_end two ->
   v_start two < v_end one -> v_start one < v_end two ->
@@ -26,3 +33,109 @@ Example C15_merge_into_example :
   (v_start one < v_end one /\ v_start two < v_end two /\ v_start two < v_end one /\ v_start one < v_end two)
   /\ merge_into one two = Ok (mkV 3 5 8%Z, Some (mkV 5 9 0%Z), None, Some (mkV 9 12 (-8)%Z)).
 Proof. cbv zeta. split; [cbn [v_start v_end]; lia|vm_compute; reflexivity]. Qed.
+
+(* ------------------------------------------------------------------ merge_sections_many (ValueIter) *)
+(* For EVERY window size W > 0 and ANY number of error-free streams, each sorted and disjoint (non-empty values):
+   collecting the iterator terminates within the model's fuel without panic or error, and the values it yields are
+   sorted, pairwise disjoint, none is zero, and at every base x the output carries the sum of the inputs' values
+   at x when that sum is not zero and nothing otherwise.  Values crossing any number of window boundaries, values
+   ending exactly on a boundary, cancelling values, explicit zeros, empty and early-ending streams are all
+   instances.  (Adjacent equal runs may come out split at a window boundary; the property allows it.) *)
+Theorem C15_merge_many : forall W vss, 0 < W -> Forall (sorted_from 0) vss ->
+  exists out, merge_sections_many W (map (map IV) vss) = Ok (map IV out) /\
+    sorted_from 0 out /\ Forall (fun v => v_val v <> 0%Z) out /\
+    forall x, sig out x = nz_opt (ssum vss x).
+Proof. exact merge_many_ok. Qed.
+Print Assumptions C15_merge_many.
+
+(* non-vacuity: three streams, W = 4: window crossings, a cancelling stretch [2,3), an explicit zero, a short stream;
+   the run of -4 over [3,6) comes out split at the window boundary 4 *)
+Example C15_merge_many_example :
+  let vss := [[mkV 0 3 8%Z; mkV 3 9 4%Z]; [mkV 2 6 (-8)%Z; mkV 8 13 1%Z]; [mkV 7 8 0%Z]] in
+  Forall (sorted_from 0) vss /\
+  merge_sections_many 4 (map (map IV) vss) =
+    Ok (map IV [mkV 0 2 8%Z; mkV 3 4 (-4)%Z; mkV 4 6 (-4)%Z; mkV 6 8 4%Z; mkV 8 9 5%Z; mkV 9 12 1%Z; mkV 12 13 1%Z]).
+Proof. exact merge_many_example. Qed.
+
+(* ------------------------------------------------------------------ fill / fill_start_to_end *)
+(* [tiles s e l]: every value of l is non-empty and begins where the previous one ended, from s to e (gapless);
+   [zeros_added ins outs]: outs is ins, unchanged and in order, with zero-valued values inserted;
+   [end_from s l]: where the sorted list l ends (s when it is empty). *)
+Theorem C15_fill : forall vs, sorted_from 0 vs ->
+  exists out, fill (map IV vs) = Ok (map IV out) /\ tiles 0 (end_from 0 vs) out /\ zeros_added vs out.
+Proof. exact fill_ok. Qed.
+Print Assumptions C15_fill.
+
+Theorem C15_fill_start_to_end : forall vs start end_, sorted_from start vs -> end_from start vs <= end_ ->
+  exists out, fill_start_to_end (map IV vs) start end_ = Ok (map IV out) /\ tiles start end_ out /\ zeros_added vs out.
+Proof. exact fill_start_to_end_ok. Qed.
+Print Assumptions C15_fill_start_to_end.
+
+(* consequence for the per-base signal: adding zeros changes no base's sum, and a tiling covers exactly [s, e) *)
+Theorem C15_fill_signal : forall ins outs s e, zeros_added ins outs -> tiles s e outs ->
+  forall x, sigz outs x = sigz ins x /\ cov outs x = (s <=? x) && (x <? e).
+Proof. intros ins outs s e Hz Ht x. split; [apply zeros_added_sigz; exact Hz|apply tiles_cov; exact Ht]. Qed.
+Print Assumptions C15_fill_signal.
+
+Example C15_fill_example :
+  let vs := [mkV 10 15 4%Z; mkV 20 30 6%Z; mkV 30 35 7%Z] in
+  sorted_from 5 vs /\ end_from 5 vs <= 40 /\
+  fill (map IV vs) = Ok (map IV [mkV 0 10 0%Z; mkV 10 15 4%Z; mkV 15 20 0%Z; mkV 20 30 6%Z; mkV 30 35 7%Z]) /\
+  fill_start_to_end (map IV vs) 5 40 =
+    Ok (map IV [mkV 5 10 0%Z; mkV 10 15 4%Z; mkV 15 20 0%Z; mkV 20 30 6%Z; mkV 30 35 7%Z; mkV 35 40 0%Z]).
+Proof. exact fill_example. Qed.
+
+(* ------------------------------------------------------------------ the merge tool, one chromosome *)
+(* [tool_chrom W maxfds size bws thr adj clip]: what get_merged_vals hands to the output writer for a chromosome of
+   length [size] present in the inputs [bws] (each: the stored values).  With at most [maxfds] inputs:
+   the values are exactly  filter (> threshold) (map (+adjust . min clip) merged)  where [merged] is the merge of
+   the complete inputs (queried from base 0); they are sorted and disjoint; and at EVERY base x (base 0 included)
+   the output is [tool_expected]: nothing where the per-base sum is zero/absent, otherwise
+   min(clip, sum) + adjust if that exceeds the threshold, nothing if not. *)
+Theorem C15_tool_pipeline : forall W maxfds size bws thr adj clip,
+  0 < W -> Forall (sorted_from 0) bws -> Forall (fun vs => end_from 0 vs <= size) bws ->
+  (length bws <= maxfds)%nat ->
+  exists merged out, merge_sections_many W (map (map IV) bws) = Ok (map IV merged) /\
+    out = filter (fun v => above (Some thr) (v_val v)) (map (clip_adjust clip (unwrap_or0 adj)) merged) /\
+    tool_chrom W maxfds size bws thr adj clip = Ok (map IV out) /\
+    sorted_from 0 out /\ forall x, sig out x = tool_expected bws thr adj clip x.
+Proof. exact tool_chrom_direct. Qed.
+Print Assumptions C15_tool_pipeline.
+
+(* With more inputs than the descriptor budget (maxfds >= 2; 976 in the code) the inputs are merged in chunks,
+   repeatedly, and clip/adjust/threshold are applied once, to the total (repaired, D6c): same per-base result. *)
+Theorem C15_tool_chunked : forall W maxfds size bws thr adj clip,
+  0 < W -> (2 <= maxfds)%nat -> Forall (sorted_from 0) bws -> Forall (fun vs => end_from 0 vs <= size) bws ->
+  (maxfds < length bws)%nat ->
+  exists out, tool_chrom W maxfds size bws thr adj clip = Ok (map IV out) /\
+    sorted_from 0 out /\ forall x, sig out x = tool_expected bws thr adj clip x.
+Proof. exact tool_chrom_chunked. Qed.
+Print Assumptions C15_tool_chunked.
+
+(* non-vacuity of both paths (budget 2): two inputs direct, three inputs chunked; base 0 is covered;
+   sums 3.0 / 1.0(+0.5) / clip 2.0 ... in eighths *)
+Example C15_tool_example :
+  let a := [mkV 0 10 12%Z] in let b := [mkV 0 4 12%Z; mkV 6 10 (-12)%Z] in let c := [mkV 2 8 8%Z] in
+  tool_chrom 4 2 1000 [a; b] 0 (Some 4%Z) (Some 16%Z) = Ok (map IV [mkV 0 4 20%Z; mkV 4 6 16%Z]) /\
+  tool_chrom 4 2 1000 [a; b; c] 0 (Some 4%Z) (Some 16%Z) =
+    Ok (map IV [mkV 0 2 20%Z; mkV 2 4 20%Z; mkV 4 6 20%Z; mkV 6 8 12%Z]).
+Proof. cbv zeta. split; vm_compute; reflexivity. Qed.
+
+(* ------------------------------------------------------------------ output names (repaired, D6b) *)
+(* Whatever precedes the suffix, and in whatever letter case the suffix is written: .bw and .bigwig select bigWig,
+   .bedgraph selects bedGraph; --output-type bigwig / bedgraph (any case) decides regardless of the name; in
+   particular the three spellings of the help text are recognised. *)
+Theorem C15_output_names : forall stem suf t name,
+  (to_lower suf = s_dot_bw \/ to_lower suf = s_dot_bigwig -> detect_output None (stem ++ suf) = Some OBigWig) /\
+  (to_lower suf = s_dot_bedgraph -> detect_output None (stem ++ suf) = Some OBedGraph) /\
+  (to_lower t = s_bigwig -> detect_output (Some t) name = Some OBigWig) /\
+  (to_lower t = s_bedgraph -> detect_output (Some t) name = Some OBedGraph) /\
+  detect_output None (stem ++ [46; 98; 119]) = Some OBigWig /\
+  detect_output None (stem ++ [46; 98; 105; 103; 87; 105; 103]) = Some OBigWig /\
+  detect_output None (stem ++ [46; 98; 101; 100; 71; 114; 97; 112; 104]) = Some OBedGraph.
+Proof.
+  intros stem suf t name.
+  exact (conj (proj1 (detect_suffix stem suf)) (conj (proj2 (detect_suffix stem suf))
+        (conj (proj1 (detect_type t name)) (conj (proj2 (detect_type t name)) (detect_documented stem))))).
+Qed.
+Print Assumptions C15_output_names.
